@@ -29,6 +29,9 @@ type mutant struct {
 	Patch    string `json:"patch,omitempty"` // alternatively: a unified diff under /verif (seeded/<id>/patch.diff)
 	// ExpectMiss marks a change that lies outside what the check claims to decide
 	// (kept in the matrix so that the limit stays visible); Why says which limit.
+	// ExpectClean marks a change under which the property still HOLDS (a correctly
+	// synchronised cache, a sync.Once): the check must stay quiet on it.
+	ExpectClean bool `json:"expect_clean,omitempty"`
 	ExpectMiss bool   `json:"expect_miss,omitempty"`
 	Why        string `json:"why,omitempty"`
 }
@@ -202,7 +205,14 @@ func selftestSensitivity(args []string) int {
 	for _, r := range results {
 		total++
 		status := "MISSED"
-		if r.Mutant.ExpectMiss {
+		if r.Mutant.ExpectClean {
+			if r.Exit == 0 && !r.Killed {
+				killed++
+				status = "quiet (property holds)"
+			} else {
+				status = "FALSE ALARM"
+			}
+		} else if r.Mutant.ExpectMiss {
 			total--
 			status = "missed-as-documented"
 			if r.Killed {
